@@ -1493,6 +1493,86 @@ fn c01_begin_races_compaction(dir: PathBuf) -> ScenFut<'static> {
     })
 }
 
+/// A commit is applied but not yet published (it waits behind an earlier commit that is still
+/// between its commit-log write and its apply) when the memtable is flushed and compacted.
+fn c05_compaction_of_unpublished_commit(dir: PathBuf) -> ScenFut<'static> {
+    Box::pin(async move {
+        let res = std::thread::spawn(move || -> Result<(), String> {
+            let rt = tokio::runtime::Builder::new_multi_thread().worker_threads(4).enable_all().build().map_err(|e| e.to_string())?;
+            rt.block_on(async move {
+                let cfg = Cfg { level_count: 2, l0_max_files: 1, max_bytes_for_level: 1 << 20, ..base_cfg() };
+                let t = std::sync::Arc::new(cfg.open(&dir).map_err(|e| e.to_string())?);
+                put(&t, &[(b"k", b"v1")]).await?; // acknowledged: every later transaction sees it
+                let ctl = crate::e3::ctl();
+                ctl.reset();
+                let gate = ctl.arm_gate("commit.after_wal");
+                let wo = |t: std::sync::Arc<Tree>, k: &'static [u8], v: &'static [u8]| async move {
+                    let mut tx = t.begin_with_mode(Mode::WriteOnly).map_err(|e| e.to_string())?;
+                    tx.set(k, v).map_err(|e| e.to_string())?;
+                    tx.commit().await.map_err(|e| e.to_string())
+                };
+                let (t1, h1) = (t.clone(), tokio::runtime::Handle::current());
+                let early = std::thread::spawn(move || h1.block_on(wo(t1, b"e", b"x")));
+                if !gate.wait_parked(5000) {
+                    gate.release();
+                    let _ = early.join();
+                    ctl.reset();
+                    return Err("harness: no commit reached commit.after_wal".into());
+                }
+                // a later commit of k: logged and applied, but published only after the early one
+                let (t2, h2) = (t.clone(), tokio::runtime::Handle::current());
+                let later = std::thread::spawn(move || h2.block_on(wo(t2, b"k", b"v2")));
+                let mut applied = false;
+                for _ in 0..500 {
+                    if t.verif_dump_key(b"k").map(|v| v.len() >= 2).unwrap_or(false) {
+                        applied = true;
+                        break;
+                    }
+                    std::thread::sleep(std::time::Duration::from_millis(4));
+                }
+                let horizon = t.verif_visible_seq();
+                let flushed = t.verif_flush().map_err(|e| e.to_string());
+                let compacted = t.verif_compact_once().map_err(|e| e.to_string());
+                let r = t.begin_with_mode(Mode::ReadOnly).map_err(|e| e.to_string())?;
+                let got = r.get(&b"k"[..]).map_err(|e| e.to_string());
+                let rh = r.verif_start_seq();
+                drop(r);
+                gate.release();
+                let re = early.join().map_err(|_| "committer panicked".to_string())?;
+                let rl = later.join().map_err(|_| "committer panicked".to_string())?;
+                ctl.reset();
+                let fin = get1(&t, b"k")?;
+                if let Ok(t) = std::sync::Arc::try_unwrap(t) {
+                    close(t).await;
+                }
+                if !applied {
+                    return Err("harness: the later commit was not applied while the early one was held".into());
+                }
+                flushed?;
+                let compacted = compacted?;
+                re?;
+                rl?;
+                let got = got?;
+                if got.as_deref() != Some(&b"v1"[..]) {
+                    return Err(format!(
+                        "k = v1 is committed and acknowledged; a commit of another key is held between its commit-log write and its apply; a later commit k = v2 is applied but cannot be published (visible sequence number still {horizon}); the memtable is flushed and one compaction round runs ({}); a transaction begun now (horizon {rh}) reads k = {:?} instead of v1 (after the held commit was released: k = {:?})",
+                        if compacted { "it merged the table" } else { "nothing to do" },
+                        got.map(|v| String::from_utf8_lossy(&v).to_string()),
+                        fin.map(|v| String::from_utf8_lossy(&v).to_string())
+                    ));
+                }
+                if fin.as_deref() != Some(&b"v2"[..]) {
+                    return Err(format!("after both commits returned k = {:?}, expected v2", fin.map(|v| String::from_utf8_lossy(&v).to_string())));
+                }
+                Ok(())
+            })
+        })
+        .join()
+        .map_err(|_| "scenario thread panicked".to_string())?;
+        res
+    })
+}
+
 fn c05_l0_order_by_largest_seq(dir: PathBuf) -> ScenFut<'static> {
     Box::pin(async move {
         let res = std::thread::spawn(move || -> Result<(), String> {
@@ -3181,6 +3261,12 @@ pub fn all() -> Vec<Scenario> {
             property: "C17",
             title: "level task woken once while L1 outranks an L0 that sits at the write-stall limit",
             run: c17_one_compaction_round_per_wakeup,
+        },
+        Scenario {
+            id: "C05-compaction-of-unpublished-commit",
+            property: "C05",
+            title: "flush and compaction while a commit is applied but held back from publication by an earlier one",
+            run: c05_compaction_of_unpublished_commit,
         },
         Scenario {
             id: "C05-l0-order-by-largest-seq",
